@@ -95,6 +95,8 @@ def path_str(path):
     for kind, key in path[1:]:
         if kind == "i":
             s += "[%r]" % (key,)
+        elif kind == "n":
+            s += "[np.int64(%d)]" % key        # numpy >= 2 repr of an np.int64 item key
         elif kind == "a":
             s += ".%s" % key
         else:
@@ -180,7 +182,7 @@ class Spec:
             self._walk((label,), ctype, children)
 
     def _walk(self, path, ctype, children):
-        kind = "a" if ctype == "obj" else "i"
+        kind = "a" if ctype == "obj" else ("n" if ctype == "nplist" else "i")
         self.children[path] = []
         for key, node in children:
             p = path + ((kind, key),)
@@ -429,11 +431,11 @@ class Model:
                 if st[0] == "c":
                     k = getval(st[1])
                     ctype = spec.containers.get(out) or spec.root_mode[out[0]][1]
-                    if ctype == "list":
+                    if ctype in ("list", "nplist"):
                         n = len(spec.children[out])
                         if not isinstance(k, int) or isinstance(k, bool) or not (0 <= k < n):
                             raise IndexError(k)
-                    out = out + (("i", k),)
+                    out = out + (("n" if ctype == "nplist" else "i", k),)
                 else:
                     out = out + (st,)
             return out
